@@ -84,3 +84,39 @@ REG.contract('C10', W, 'Resolver._download', variant='whole', params={'self': DL
              method_effects={'get_data_with_backoff': {'returns': TupleS(Str, Str), 'raises': ['WrapException']}, '_download': {'returns': Opt(Obj), 'raises': ['WrapException']}},
              floor=6,
              note='under nodownload neither the primary nor the fallback URL is contacted and nothing is moved into the cache; otherwise only a download whose hash matched is renamed into place (the fallback attempt is the recursive call, an effect here)')
+
+# ---- consistency of repeated lookups: a dependency that a lookup has FOUND is pinned for every name of the call, so that any
+# later lookup of the name in this configuration returns it (dependency_overrides is consulted first by _get_candidates'
+# first candidate); an entry that exists already is never replaced.  Region: the verdict statement inside the candidate loop.
+from pyvc.api import Dict as _Dict
+U_ = 'mesonbuild/utils/universal.py'
+B_ = 'mesonbuild/dependencies/detect.py'
+REG.contract('C10', U_, 'PerMachine.__getitem__', inline=True, trusted=True, note='[self.build, self.host][machine.value]; inlined')
+REG.contract('C10', B_, 'get_dep_identifier', trusted=True, params={'name': Str, 'kwargs': Obj}, ensures=['result is dep_identifier(name, kwargs)'], result=Obj,
+             pure_expr='dep_identifier(name, kwargs)', note='the cache key of a lookup: a pure function of the name and the keyword arguments (assumed)')
+_MC = __import__('pyvc.src', fromlist=['x']).import_module('mesonbuild/utils/universal.py').MachineChoice
+for _names in (['n'], ['n', 'm']):
+    for _mname in ('HOST', 'BUILD'):
+        k_ = len(_names)
+        fld = _mname.lower()
+        PMS = Struct('PerMachine', 'mesonbuild.utils.universal:PerMachine', build=_Dict(Obj, Obj), host=_Dict(Obj, Obj))
+        BuildS_ = Struct('Build', 'mesonbuild.build:Build', dependency_overrides=PMS)
+        IntS_ = Struct('Interpreter', 'mesonbuild.interpreter.interpreter:Interpreter', current_node=Obj)
+        HS = Struct('DependencyFallbacksHolder', 'mesonbuild.interpreter.dependencyfallbacks:DependencyFallbacksHolder',
+                    names=Const(list(_names)), build=BuildS_, for_machine=Const(getattr(_MC, _mname)), interpreter=IntS_, _display_name=Str)
+        FOUND = "(dep is not None and truthy(dep) and obj_found(dep))"
+        OLD, NEW = f"self.build.dependency_overrides.{fld}", f"new(self).build.dependency_overrides.{fld}"
+        OTHER_OLD, OTHER_NEW = (f"self.build.dependency_overrides.{'build' if fld == 'host' else 'host'}", f"new(self).build.dependency_overrides.{'build' if fld == 'host' else 'host'}")
+        NEWOBJ = "[e for e in __trace__ if e[0] == 'new DependencyOverride']"
+        ens = [f"implies({FOUND}, result is dep)"]
+        ens += [f"implies({FOUND}, dep_identifier({n_!r}, kwargs) in {NEW})" for n_ in _names]
+        ens += [f"forall(Obj, lambda q: implies(q in {OLD}, q in {NEW} and {NEW}[q] is {OLD}[q]))",
+                f"forall(Obj, lambda q: implies(q in {NEW} and q not in {OLD}, {FOUND} and ({' or '.join(f'q is dep_identifier({n_!r}, kwargs)' for n_ in _names)})))",
+                f"forall(Obj, lambda q: (q in {OTHER_NEW}) == (q in {OTHER_OLD}) and implies(q in {OTHER_OLD}, {OTHER_NEW}[q] is {OTHER_OLD}[q]))",
+                f"all(e[1] is dep and e[2] is self.interpreter.current_node and kw(e, 'explicit', True) is False for e in {NEWOBJ})"]
+        REG.contract('C10', D, 'DependencyFallbacksHolder.lookup', variant=f'pin-{fld}-{k_}', region=('If', 'dep.found()'),
+                     params={'self': HS, 'dep': Opt(Obj), 'kwargs': Obj, 'required': Bool, 'i': Int, 'last': Int},
+                     ensures=ens, raises={'DependencyException': f'not {FOUND} and required and ((dep is not None and truthy(dep)) or i == last)'},
+                     opaque={'found': ([], Bool)}, opaque_classes=['DependencyOverride'],
+                     modifies=['self.build'], floor=6,
+                     note=f'{k_} name(s), {_mname} machine: a found dependency is returned AND recorded under the identifier of every name of the call unless an entry exists (which is kept); nothing else is recorded; a required dependency that is not found is an error at the last candidate (or when a candidate answered with a not-found dependency)')
